@@ -83,6 +83,19 @@ class ExitGen:
             return While(Lit(BOOL, True), body)
         return For(None, None, None, body)
 
+    def dead_loop(self, d, ctx):
+        """while (false) / for (;false;) whose body ends in an exit and has no
+        break: the loop is constant but NOT infinite, so whatever follows it is
+        reachable and a value function still needs its return"""
+        r = self.r
+        c2 = dict(ctx, loop=True)
+        body = self.stmts(r.randint(0, 2), d - 1, c2)
+        body = [s for s in body if not isinstance(s, Break)]
+        body.append(self.exit_stmt(c2, allow=('ret', 'continue', 'win', 'broken', 'defeat')))
+        if r.random() < 0.5:
+            return While(Lit(BOOL, False), body)
+        return For(None, Lit(BOOL, False), None, body)
+
     def counted_loop(self, d, ctx):
         self.uid += 1
         iv = f'i{self.uid}'
@@ -108,8 +121,10 @@ class ExitGen:
                 if b is not None and r.random() < 0.5:
                     b.append(self.exit_stmt(ctx))
                 out.append(If(self.cond(), a, b))
-            elif c < 0.52:
+            elif c < 0.50:
                 out.append(self.infinite_loop(d, ctx))
+            elif c < 0.53:
+                out.append(self.dead_loop(d, ctx))
             elif c < 0.60:
                 out.append(self.counted_loop(d, ctx))
             elif c < 0.72 and ctx['you'] and not ctx['defeat']:
@@ -156,6 +171,8 @@ class ExitGen:
             body.append(Ret(Bin('*', X, Lit(INT, 2))))
         elif tail < 0.6:
             body.append(self.exit_stmt(ctx))
+        elif tail < 0.68:
+            body.append(self.dead_loop(2, ctx))
         f.body = body
         nxt = Func(flavor + 'fnext', [('x', INT, False)], ret,
                    [ExprStmt(Call('write', [Lit(STRING, b'<NEXT>')]))] + ([Ret(Lit(INT, -1))] if ret != EMPTY else []))
